@@ -15,8 +15,19 @@ import (
 	"github.com/skx/evalfilter/v2/object"
 )
 
+// maxCompileDepth is the deepest nesting of AST-nodes we will compile.
+const maxCompileDepth = 100000
+
 // compile is core-code for converting the AST into a series of bytecodes.
 func (e *Eval) compile(node ast.Node) error {
+
+	// We recurse: do not let a pathologically deep tree - for example
+	// an expression with millions of operators - exhaust the stack.
+	e.depth++
+	defer func() { e.depth-- }()
+	if e.depth > maxCompileDepth {
+		return fmt.Errorf("the script is nested too deeply, the limit is %d", maxCompileDepth)
+	}
 
 	switch node := node.(type) {
 
